@@ -71,13 +71,15 @@ static InlineX int pad4(int value)
 int ScaleX(rfbScreenInfoPtr from, rfbScreenInfoPtr to, int x)
 {
     if ((from==to) || (from==NULL) || (to==NULL)) return x;
-    return ((int)(((double) x / (double)from->width) * (double)to->width ));
+    /* integer arithmetic: dividing first in floating point truncated exact
+     * quotients downwards, e.g. (1.0/49)*98 -> 1 */
+    return ((int)(((int64_t) x * (int64_t)to->width) / (int64_t)from->width));
 }
 
 int ScaleY(rfbScreenInfoPtr from, rfbScreenInfoPtr to, int y)
 {
     if ((from==to) || (from==NULL) || (to==NULL)) return y;
-    return ((int)(((double) y / (double)from->height) * (double)to->height ));
+    return ((int)(((int64_t) y * (int64_t)to->height) / (int64_t)from->height));
 }
 
 /* So, all of the encodings point to the ->screen->frameBuffer,
